@@ -72,7 +72,8 @@ impl World for MutexWorld {
     }
     fn enum_configs(&self, tier: Tier) -> Vec<(Cfg, usize)> {
         let mut v = Vec::new();
-        let k = if tier == Tier::Quick { 2 } else { 3 };
+        let k = 3;
+        let _ = tier;
         for mode in [0u8, 1] {
             v.push((Cfg { flavour: FL_CHECKED, mode, x: 0, y: 0, k }, 64));
         }
@@ -362,7 +363,9 @@ fn monitors<M: RawMutex>(
     let locked = mutex.is_locked();
     if locked != guard.is_some() {
         run.violate("C02", "is_locked-mismatch", format!("is_locked() == {} while the harness holds {} guard(s)", locked, guard.is_some() as u8));
-        return;
+        if run.failed() {
+            return;
+        }
     }
     // C03: no lost wake-up
     if guard.is_none() {
@@ -376,11 +379,15 @@ fn monitors<M: RawMutex>(
                         "lost-wakeup-fair",
                         format!("mutex is free, slot {} is the longest-waiting pending future and has not been woken through its latest waker since its last poll", head),
                     );
-                    return;
+                    if run.failed() {
+                        return;
+                    }
                 }
             } else if !pend.iter().any(|&i| slots[i].woken()) {
                 run.violate("C03", "lost-wakeup", format!("mutex is free, futures {:?} are pending and none has been woken since its last poll", pend));
-                return;
+                if run.failed() {
+                    return;
+                }
             }
         }
     }
@@ -393,7 +400,9 @@ fn monitors<M: RawMutex>(
             }
             if t != s.done {
                 run.violate("C17", "is_terminated-mismatch", format!("slot {}: is_terminated() == {} but completed == {}", i, t, s.done));
-                return;
+                if run.failed() {
+                    return;
+                }
             }
         }
     }
